@@ -44,7 +44,7 @@ func c19GenFile(r *Rng, idx int, force int) c19File {
 	var tables []string // global tables that can get members
 	var ltables []string
 	for i := 0; i < nStat; i++ {
-		switch r.Intn(18) {
+		switch r.Intn(19) {
 		case 0:
 			v := nm("Loc")
 			sb.WriteString(fmt.Sprintf("local %s = %d\n", v, i))
@@ -113,6 +113,20 @@ func c19GenFile(r *Rng, idx int, force int) c19File {
 			v, g := nm("inner"), nm("InnerGlob")
 			sb.WriteString(fmt.Sprintf("do\n  local %s = 1\n  %s = %s\nend\n", v, g, v))
 			wants = append(wants, want{g, "global-assigned-in-block", true})
+		case 18:
+			// a local declaration list with Lua 5.4 attributes on names other than the first
+			a, b, cc := nm("LstA"), nm("LstB"), nm("LstC")
+			switch r.Intn(3) {
+			case 0:
+				sb.WriteString(fmt.Sprintf("local %s, %s <const> = %d, %d\nprint(%s, %s)\n", a, b, i, i+1, a, b))
+				wants = append(wants, want{a, "top-level-local", false}, want{b, "top-level-local-with-attribute", false})
+			case 1:
+				sb.WriteString(fmt.Sprintf("local %s <const>, %s, %s <close> = %d, %d, nil\nprint(%s, %s, %s)\n", a, b, cc, i, i+1, a, b, cc))
+				wants = append(wants, want{a, "top-level-local-with-attribute", false}, want{b, "top-level-local", false}, want{cc, "top-level-local-with-attribute", false})
+			default:
+				sb.WriteString(fmt.Sprintf("local %s <const> = %d\nprint(%s)\n", a, i, a))
+				wants = append(wants, want{a, "top-level-local-with-attribute", false})
+			}
 		case 17:
 			// a function member declared through self inside a colon method, the method on one line or on several
 			var tb string
